@@ -162,3 +162,146 @@ def add_deps_path():
     p = os.path.join(os.environ.get("PYABV_HOME", os.path.dirname(os.path.dirname(os.path.abspath(__file__)))), ".deps")
     if p not in sys.path:
         sys.path.append(p)
+
+
+# ---------------------------------------------------------------------------------------------
+# P4: sys.monitoring CALL events raised by code objects compiled from "<string>"
+
+
+def callable_name(c):
+    import functools
+
+    if isinstance(c, functools.partial):
+        return "partial-object:" + callable_name(c.func)
+    mod = getattr(c, "__module__", None)
+    qn = getattr(c, "__qualname__", None) or getattr(c, "__name__", None)
+    if qn is None:
+        return "instance-of:" + type(c).__module__ + "." + type(c).__qualname__
+    return f"{mod}.{qn}"
+
+
+class CallMonitor:
+    """Records the callables invoked *by generated code* (code objects whose filename is
+    "<string>") while a window is open.  The sys.monitoring tool is installed once per process
+    (global CALL events; every call site outside generated code switches itself off with DISABLE on
+    its first event, so the steady-state cost is confined to generated code)."""
+
+    TOOL = 3  # 0 debugger, 1 coverage, 2 profiler, 5 optimizer are reserved names; 3 is free
+    _installed = False
+    _current = None
+
+    def __init__(self):
+        self.callees = set()
+        self.events = 0
+
+    @classmethod
+    def _install(cls):
+        mon = sys.monitoring
+        mon.use_tool_id(cls.TOOL, "pyabv-callmon")
+
+        def on_call(code, offset, callee, arg0):
+            if code.co_filename != "<string>":
+                return mon.DISABLE
+            cur = cls._current
+            if cur is not None:
+                cur.events += 1
+                cur.callees.add(callable_name(callee))
+
+        mon.register_callback(cls.TOOL, mon.events.CALL, on_call)
+        mon.set_events(cls.TOOL, mon.events.CALL)
+        cls._installed = True
+
+    def __enter__(self):
+        if not CallMonitor._installed:
+            CallMonitor._install()
+        CallMonitor._current = self
+        return self
+
+    def __exit__(self, *exc):
+        CallMonitor._current = None
+        return False
+
+
+# P5: audit hook (cannot be removed once added: installed once per process, recording toggled)
+_audit = {"installed": False, "recording": None}
+AUDIT_INTERESTING = (
+    "compile", "exec", "import", "open", "os.system", "os.exec", "os.posix_spawn", "os.spawn", "os.fork", "subprocess.Popen",
+    "socket.", "ctypes.", "os.remove", "os.rename", "os.mkdir", "os.rmdir", "shutil.", "os.putenv", "os.chdir", "os.listdir",
+    "os.scandir", "glob.glob", "urllib.", "ftplib.", "smtplib.", "pty.spawn", "marshal.", "pickle.find_class", "code.__new__",
+    "builtins.input", "os.truncate", "os.chmod", "os.kill", "webbrowser.open",
+)
+
+
+def _audit_hook(event, args):
+    rec = _audit["recording"]
+    if rec is None:
+        return
+    if event.startswith(AUDIT_INTERESTING):
+        detail = ""
+        if event == "import":
+            detail = ":" + str(args[0])
+        elif event == "open":
+            detail = ":" + str(args[0])[:80]
+        elif event == "compile":
+            detail = ":" + str(args[1])[:40]
+        rec.append(event + detail)
+
+
+class AuditRecorder:
+    def __enter__(self):
+        if not _audit["installed"]:
+            sys.addaudithook(_audit_hook)
+            _audit["installed"] = True
+        self.events = []
+        _audit["recording"] = self.events
+        return self
+
+    def __exit__(self, *exc):
+        _audit["recording"] = None
+        return False
+
+
+class Sentinels:
+    """(iii) PWNED planted in builtins, plus recording shadows of print / open: a call whose caller
+    frame was compiled from "<string>" (generated code) is recorded."""
+
+    def __init__(self):
+        self.hits = []
+
+    def __enter__(self):
+        import builtins
+
+        self._saved = {}
+
+        def pwned(*a, **k):
+            self.hits.append(("PWNED", repr(a)[:80]))
+            return ""
+
+        self._saved["PWNED"] = getattr(builtins, "PWNED", None)
+        builtins.PWNED = pwned
+        for name in ("print", "open", "input", "breakpoint", "exit", "quit"):
+            orig = getattr(builtins, name, None)
+            if orig is None:
+                continue
+            self._saved[name] = orig
+
+            def shadow(*a, __orig=orig, __name=name, **k):
+                f = sys._getframe(1)
+                if f.f_code.co_filename == "<string>":
+                    self.hits.append((__name, repr(a)[:80]))
+                    return None
+                return __orig(*a, **k)
+
+            setattr(builtins, name, shadow)
+        return self
+
+    def __exit__(self, *exc):
+        import builtins
+
+        for name, orig in self._saved.items():
+            if orig is None:
+                if hasattr(builtins, name):
+                    delattr(builtins, name)
+            else:
+                setattr(builtins, name, orig)
+        return False
